@@ -8,6 +8,7 @@
 // bit-identity).  Private state after each prefix is hashed (-fno-access-control) to count canonical states: with the property true
 // there are k+1 of them per (configuration, letter); the count is evidence only, never an alarm.
 #include "vf.hpp"
+#include <thread>
 #include <set>
 #include "ma-filter.h"
 #include <memory>
@@ -300,6 +301,11 @@ static std::vector<Config> make_configs(bool T) {
     for (int fl : {31, 32, 51})
         add(fmt("HilbertFilter(%d)", fl), 1, 1,
             mk<RR, HilbertFilter>([fl] { return HilbertFilter(fl, 0.05); },
+                                  [](HilbertFilter& h) { return VF_TRY(h, (uint64_t)(mix(HS(o._fir._d), HS(o._d._buffer))), (uint64_t)0); }));
+    // neighbouring transition widths of one length, in both construction orders (mode sibling; a design cache keyed too coarsely)
+    for (double tw : {0.0100, 0.0108, 0.0100, 0.0125})
+        add(fmt("HilbertFilter(51,tw%g)", tw), 1, 1,
+            mk<RR, HilbertFilter>([tw] { return HilbertFilter(51, tw); },
                                   [](HilbertFilter& h) { return VF_TRY(h, (uint64_t)(mix(HS(o._fir._d), HS(o._d._buffer))), (uint64_t)0); }));
     for (auto [fs, f] : std::vector<std::pair<int, double>>{{8, 1.0}, {8, -3.0}, {9, 2.0}, {8, 0.5}, {9, 4.4}, {5, 1.25}, {8000, 440.0}})
         add(fmt("Tuner(%d,%g)", fs, f), 2, fs <= 9 ? 3 : 1500,
@@ -828,6 +834,46 @@ int main(int argc, char** argv) {
                     } else {
                         ctx.note(ve.empty() ? "copy: histories consistent with value semantics" : "copy: histories consistent with handle semantics only");
                     }
+                }
+            }
+        }
+        // ---------------- mode sibling: a DIFFERENTLY configured processor of the same class constructed (and used) first in the same
+        // thread, still alive while this one is constructed and run; reference: this configuration alone in a fresh thread
+        if (ci > 0) {
+            const Config& pc = C[ci - 1];
+            const std::string kind = c.name.substr(0, c.name.find('(')), pkind = pc.name.substr(0, pc.name.find('('));
+            if (kind == pkind && ctx.take("instance.sibling", P().kv("config", c.name).kv("first", pc.name))) {
+                const int G = 24;
+                auto stream = make_stream(c, G, 0), pstream = make_stream(pc, 6, 0, 3);
+                RunOut solo, pair;
+                std::thread t1([&] { solo = run_frames(c, stream, {G}, nullptr); });
+                t1.join();
+                std::thread t2([&] {
+                    try {
+                        auto p0 = pc.make();
+                        std::vector<double> o1, o2;
+                        p0->run(pstream.data(), 6 * pc.granule, o1, o2);
+                        pair = run_frames(c, stream, {G}, nullptr);
+                        p0->run(pstream.data(), 6 * pc.granule, o1, o2);
+                    } catch (const std::exception& e) {
+                        pair.err = e.what();
+                    }
+                });
+                t2.join();
+                ++ctx.traces;
+                ++ctx.evaluations;
+                ++ctx.checks["instance.sibling"].evals;
+                ctx.nontrivial();
+                const bool same = solo.err.empty() && pair.err.empty() && solo.out.size() == pair.out.size() &&
+                                  (solo.out.empty() || memcmp(solo.out.data(), pair.out.data(), solo.out.size() * 8) == 0);
+                if (!same) {
+                    size_t d = 0;
+                    while (d < solo.out.size() && d < pair.out.size() && memcmp(&solo.out[d], &pair.out[d], 8) == 0) ++d;
+                    ctx.fail(kind.c_str(),
+                             !pair.err.empty() || !solo.err.empty() ? "threw: " + pair.err + solo.err
+                                                                    : fmt("after %s was constructed and used in the same thread: output[%zu] = %.17g, alone %.17g", pc.name.c_str(), d,
+                                                                          d < pair.out.size() ? pair.out[d] : NAN, d < solo.out.size() ? solo.out[d] : NAN),
+                             "bit-identical to the processor constructed alone in a fresh thread", P().kv("mode", "sibling"));
                 }
             }
         }
